@@ -15,16 +15,75 @@ pub fn def() -> CheckDef {
     CheckDef {
         id: "C01",
         level: "exploration",
-        rule: "random typed job DAGs (choice-sequence decoder, profile `base`) x K deployment configurations (local 1-8, 1-4 hosts x 1-4 cores, batch modes, delay injection); oracle: every sink equals the sequential reference interpreter; non-trivial = non-empty input, >=1 repartitioning edge and >=2 replicas in the configuration; distinct = structural hash of (job, configuration)",
+        rule: "random typed job DAGs (choice-sequence decoder, profile `base`) x K deployment configurations (local 1-8, 1-4 hosts x 1-4 cores, batch modes, delay injection); oracle: every sink equals the sequential reference interpreter; a second mode (xproc) runs each program on a multi-host configuration with one OS PROCESS per host (`vrun xhost`, the same build; loopback TCP between the processes) and judges the sinks the same way; non-trivial = non-empty input, >=1 repartitioning edge and >=2 replicas in the configuration; distinct = structural hash of (job, configuration)",
         assumptions: &[
             "aggregation functions are associative and commutative; order-dependent operators (zip, count windows) only on deterministically ordered inputs",
             "thread and network schedules are sampled (OS nondeterminism + seeded delay injection), not enumerated",
-            "hosts are simulated as threads of one process over real loopback TCP",
+            "in the main mode hosts are simulated as threads of one process over real loopback TCP (needed for the observer); the xproc mode uses one process per host, without observer, delay injection or deadlock diagnosis (a timeout there is reported as inconclusive)",
         ],
-        modes: |t| vec![("main", t.pick(8, 14))],
-        run,
+        modes: |t| vec![("main", t.pick(8, 14)), ("xproc", t.pick(4, 6))],
+        run: |ctx, mode| {
+            if mode == "xproc" {
+                run_xproc(ctx, &Profile::base())
+            } else {
+                run(ctx, mode)
+            }
+        },
         replay,
     }
+}
+
+/// One run of (job, config) with one OS process per host; Err = could not be judged.
+pub fn judge_xproc(job: &JobSpec, cfg: &ConfigSpec, addr: AddrSeed, ctx: &Ctx, shrinking: bool) -> Result<Result<(), String>, Case> {
+    let Some(reference) = evaluate(job, &cfg.layout.cores(), cap(ctx.tier)) else {
+        return Err(Case::Discard);
+    };
+    let timeout = std::time::Duration::from_secs(if shrinking { 30 } else { 90 });
+    match crate::engine::run_spec_processes(job, cfg, addr, &ctx.verif_dir.join(".work"), timeout) {
+        Ok(hosts) => Ok(crate::engine::check_sinks_of(&hosts, &[], &reference)),
+        // no view inside the processes: a time budget hit is inconclusive, not a violation
+        Err(m) => Err(Case::Inconclusive(m)),
+    }
+}
+
+/// Deployment transparency with REAL processes: the hosts of a multi-host configuration run as
+/// separate OS processes (as in a cluster), so nothing that is only consistent within one process
+/// can hide. Oracle: the sinks equal the sequential reference.
+pub fn run_xproc(ctx: &Ctx, profile: &Profile) -> Report {
+    let mut report = Report::default();
+    let counter = std::cell::Cell::new(0u64);
+    search(ctx, 8, ctx.cases(64, 640), 60..300, &mut report, |choices, rep, shrinking| {
+        let mut g = Gen::new(choices, profile);
+        let job = g.job();
+        let feats = features(&job);
+        let mut cfg = g.config(false, crate::gen::amplifying_iterate(&job.pipe.stages));
+        rep.excluded += g.steered as u64;
+        if !cfg.layout.is_remote() {
+            let t = cfg.layout.total_cores().max(2);
+            cfg.layout = crate::run::Layout::Hosts(vec![(t + 1) / 2, t / 2]);
+        }
+        // delay injection lives in the observer of the harness process: not available here
+        cfg.delays = None;
+        let n = counter.get();
+        counter.set(n + 1);
+        let replay = json!({"property": ctx.id, "xproc": true, "job": job, "configs": [cfg]});
+        match judge_xproc(&job, &cfg, AddrSeed { shard: ctx.shard, job: 45_000 + n }, ctx, shrinking) {
+            Ok(Ok(())) => {
+                rep.class("multi_process_runs");
+                rep.class_if(feats.has_join, "job:join");
+                rep.class_if(feats.has_agg, "job:aggregation");
+                rep.class_if(feats.has_loop, "job:loop");
+                if rep.samples.len() < 2 {
+                    rep.sample(json!({"job": job, "config": cfg}));
+                }
+                let nt = feats.repartitions >= 1 && job.pipe.source.len() > 0;
+                Case::Pass { nontrivial: if nt { Some(fingerprint(&(&job, &cfg))) } else { None } }
+            }
+            Ok(Err(message)) => Case::Fail { message: format!("[one process per host] {message}"), replay },
+            Err(c) => c,
+        }
+    });
+    report
 }
 
 /// Quiescence window: 10 s / 20 s; while shrinking an already confirmed failure 3 s are enough
@@ -109,11 +168,22 @@ fn run(ctx: &Ctx, _mode: &str) -> Report {
     report
 }
 
-fn replay(ctx: &Ctx, v: &Value) -> Result<String, String> {
+pub fn replay(ctx: &Ctx, v: &Value) -> Result<String, String> {
     let job: JobSpec = serde_json::from_value(v["job"].clone()).map_err(|e| format!("bad replay file: {e}"))?;
     let configs: Vec<ConfigSpec> =
         serde_json::from_value(v["configs"].clone()).map_err(|e| format!("bad replay file: {e}"))?;
     let mut n = 0;
+    if v.get("xproc").is_some() {
+        for rep in 0..5u64 {
+            match judge_xproc(&job, &configs[0], AddrSeed { shard: 222, job: 46_000 + rep }, ctx, false) {
+                Ok(Ok(())) => {}
+                Ok(Err(m)) => return Err(format!("[one process per host] {m}")),
+                Err(Case::Inconclusive(m)) => return Err(format!("inconclusive: {m}")),
+                Err(_) => {}
+            }
+        }
+        return Ok("5 multi-process runs agreed with the reference".into());
+    }
     if std::env::var("VERIF_TRACE").is_ok() {
         // debugging aid: run until the first failure and dump the link history
         for rep in 0..20u64 {
